@@ -19,7 +19,9 @@ by the scattered-map encoding; Reify, ContinuousConstraint: not predicates on th
 kinds: multi-crossing blocks are refused by a test on len(block.crossings) whose body always raises.  A new
 constraint class, or a class dropped from the chain, is reported.  (reset) the scattered-map core's module state is
 re-initialised between calls: every assignment of reset_state rebinds a declared global, every module global written by
-the core is among them, and SMGen.sample calls reset_state before any encoding call.
+the core is among them, and SMGen.sample calls reset_state before any encoding call.  (answer length) the construction of
+the returned SamplingResult is dominated by a refusing branch that compares every returned column with
+block.trials_per_sample().
 """
 NOT_DECIDED = ("validity of what the scattered-map search returns for supported designs, including the trial count "
                "when a MinimumTrials is met by Repeat (a runtime quantity).")
